@@ -1677,6 +1677,10 @@ start_property (GMarkupParseContext *context,
 
   property->setter = g_strdup (setter);
   property->getter = g_strdup (getter);
+  {
+    const gchar *deprecated = find_attribute ("deprecated", attribute_names, attribute_values);
+    property->deprecated = deprecated && strcmp (deprecated, "1") == 0;
+  }
 
   parse_property_transfer (property, transfer, ctx);
 
